@@ -105,6 +105,8 @@ def gen_spec(g, dt):
         hi = lo + np.array([float(g.choice([1, 2, 10, 24, 360])) for _ in range(d)])
         int_bounds = True
     spec = {"kind": kind, "d": d, "lo": lo, "hi": hi, "int_bounds": int_bounds and kind not in ("affine", "identity")}
+    if (kind == "affine" or spec.get("affine")) and g.random() < 0.15:
+        spec["tiny_free"] = [float(10 ** (g.uniform(-7.3, -6.2) if dt == "float32" else g.uniform(-16.3, -15.0))) for _ in range(d)]
     if kind in ("logit", "probit", "periodic") and d > 1 and g.random() < 0.25:
         # one interval for all columns, written once as a plain number (e.g. LogitTransform(0.0, 2.0, xp) on a batch of angles)
         spec["lo"] = np.full(d, float(lo[0]))
@@ -197,6 +199,9 @@ def gen_points(g, spec, n, dt, seam_hair=True):
                 base = hi[j]
                 sc = max(10 ** g.uniform(-2, 2), abs(base) * rel)
                 x[:, j] = base - np.abs(g.standard_normal(n)) * sc - 1e-3 * sc
+            elif spec.get("tiny_free"):
+                # a quantity whose whole spread is of the order of a few machine epsilons in absolute terms (around zero)
+                x[:, j] = g.standard_normal(n) * spec["tiny_free"][j]
             else:
                 x[:, j] = g.standard_normal(n) * 10 ** (g.uniform(-12, 3) if dt == "float64" else g.uniform(-5, 3))
     x = x.astype(dt).astype(float)
